@@ -4,6 +4,7 @@ import (
 	"context"
 	"errors"
 	"fmt"
+	"io"
 	"net"
 	"os"
 	"runtime"
@@ -976,6 +977,58 @@ func TestC10Regress(t *testing.T) {
 			msg := fmt.Sprintf("call with a 100 ms request timeout returned after %v (err=%v) although the scheduler was never more than %v late: the wait for a free connection (MaxConnWaitTimeout 300 ms) is not bounded by the request timeout", el, err, late)
 			ev.Fail(prop, "regress", map[string]string{"case": "D23"}, msg)
 			t.Errorf("D23: %s", msg)
+		}
+	}
+	// The close option on the REQUEST side, in every spelling a list field allows: the peer does what it was asked to
+	// (answers without repeating the option, then closes); the connection must not go back to the pool, the next
+	// call, a POST that is never repeated, gets a connection of its own.
+	for _, form := range []string{"close", "Close", "CLOSE", "TE, close", "close, TE", "keep-alive , Close"} {
+		var dials int32
+		dial := func(n int, addr string) (net.Conn, error) {
+			atomic.AddInt32(&dials, 1)
+			cc, sc := net.Pipe()
+			go func() {
+				defer sc.Close()
+				buf := make([]byte, 4096)
+				var got []byte
+				for {
+					n, err := sc.Read(buf)
+					got = append(got, buf[:n]...)
+					if _, perr := wire.ReadRequest(got, 0); perr == nil {
+						break
+					}
+					if err != nil {
+						return
+					}
+				}
+				sc.Write([]byte("HTTP/1.1 200 OK\r\nContent-Length: 2\r\n\r\nok")) //nolint:errcheck
+				if strings.Contains(strings.ToLower(string(got)), "close") {
+					return // asked to close: closes
+				}
+				io.Copy(io.Discard, sc) //nolint:errcheck
+			}()
+			return cc, nil
+		}
+		cl := cli.New(http1.ClientOptions{MaxConns: 2, MaxIdleConnDuration: time.Hour, DialTimeout: time.Second}, dial)
+		req, resp := protocol.AcquireRequest(), protocol.AcquireResponse()
+		req.SetRequestURI("http://example.com/a")
+		req.Header.Set("Connection", form)
+		if strings.Contains(form, "TE") {
+			req.Header.Set("TE", "trailers")
+		}
+		err1 := cl.HC.Do(context.Background(), req, resp)
+		time.Sleep(20 * time.Millisecond) // let the peer's close arrive
+		req.Reset()
+		resp.Reset()
+		req.SetRequestURI("http://example.com/b")
+		req.Header.SetMethod("POST")
+		req.SetBodyString("x")
+		err2 := cl.HC.Do(context.Background(), req, resp)
+		rec.Case(true, ev.HashString("request-close-option", form), "regress-request-close-option")
+		if err1 != nil || err2 != nil || atomic.LoadInt32(&dials) != 2 {
+			msg := fmt.Sprintf("request with Connection: %s answered without the option, peer closes: first call err=%v, the POST that follows err=%v, %d connections dialed (want 2): the connection of an exchange whose request said close went back to the pool", form, err1, err2, atomic.LoadInt32(&dials))
+			ev.Fail(prop, "regress", map[string]string{"case": "request-close-option", "form": form}, msg)
+			t.Errorf("%s", msg)
 		}
 	}
 	// Saved inputs D30 (every spelling of the close option) and D31 (streamed body cut behind the
